@@ -1,4 +1,5 @@
 import Dmn.Lemmas.DecParse
+import Dmn.Lemmas.DecLex
 
 /-!
 # C07 — numbers print as plain decimal text that denotes exactly their value
@@ -103,5 +104,88 @@ theorem json_number (d : D128) (hwf : WF d) : ∃ t, plain d = some t ∧ isJson
 
 example : WF ⟨false, 0, 3⟩ ∧ plain ⟨false, 0, 3⟩ = some "0".toList ∧ isJsonNumber "-0".toList = true := by
   decide
+
+/-! ## The text → number direction
+
+`ofString` is the model of `decQuadFromString`, which is what `FromStr for FeelNumber`
+(number.rs:371), `Value::try_from_xsd_integer / _decimal / _double` (values.rs:396-408, the typed
+input values of the service and of test cases), `build_numeric` (builders.rs:1344, FEEL literals)
+and `core::number` (core.rs:738, after the separators are replaced) all call.  The specification
+reader `lexValue` gives, for every text of the numeric lexical form
+`[+-]? (digits ('.' digits?)? | '.' digits) ([eE] [+-]? digits)?` — leading `+`, leading and
+trailing zeros, `.5`, `5.`, exponent forms included —, the exact rational the text denotes as
+`(sign, N, e)`: `(-1)^sign · N · 10^e`. -/
+
+/-- **Reading a number is correct rounding of the value the text denotes**, for every accepted
+lexical form, any number of digits and any exponent: the result is the decimal128 value nearest
+to `N·10^e` (ties to even, subnormals rounded once at exponent −6176, ±Infinity exactly when the
+value rounds above the largest number — which `FromStr` then turns into an error). -/
+theorem from_str_rounds (s : List Char) (neg : Bool) (N : Nat) (e : Int)
+    (h : lexValue s = some (neg, N, e)) (hN : N ≠ 0) : RoundsHalfEven neg N 1 e (ofString s) := by
+  obtain ⟨ip, fp, ex, hip, hfp, h1, h2, h3⟩ := ofString_of_lex s neg N e h
+  rw [h1, h2, h3]
+  exact ofDigits_rounds neg ip fp ex hip hfp (h2 ▸ hN)
+
+example : lexValue "+007.2500E-3".toList = some (false, 72500, -7) ∧
+    lexValue ".5".toList = some (false, 5, -1) ∧ lexValue "-5.".toList = some (true, 5, 0) ∧
+    lexValue "1e3".toList = some (false, 1, 3) := by decide
+
+/-- a text with at most 34 significant digits whose exponent lies in the range is read
+**exactly**: sign, coefficient and exponent are the written ones (no digit is lost, nothing goes
+through binary floating point), whatever the lexical form -/
+theorem from_str_exact (s : List Char) (neg : Bool) (N : Nat) (e : Int)
+    (h : lexValue s = some (neg, N, e)) (hN : N ≠ 0) (h34 : N < 10 ^ 34) (hlo : -6176 ≤ e)
+    (hhi : e ≤ 6111) : fromStr s = some ⟨neg, N, e⟩ := by
+  obtain ⟨ip, fp, ex, _, _, h1, h2, h3⟩ := ofString_of_lex s neg N e h
+  unfold fromStr
+  rw [h1, h2, h3, ofDigits_exact_exp neg ip fp ex (h2 ▸ h34) (h2 ▸ hN) (h3 ▸ hlo) (h3 ▸ hhi)]
+  rfl
+
+example : lexValue "-.25".toList = some (true, 25, -2) ∧ (25 : Nat) ≠ 0 ∧ (25 : Nat) < 10 ^ 34 := by decide
+example : fromStr "+00120.E+1".toList = some ⟨false, 120, 1⟩ := by decide
+
+/-- zero written in any form (`0`, `-0.00`, `+.0E5`) is a zero with the written sign -/
+theorem from_str_zero (s : List Char) (neg : Bool) (e : Int) (h : lexValue s = some (neg, 0, e)) :
+    IsZeroWith neg (ofString s) := by
+  obtain ⟨ip, fp, ex, _, _, h1, h2, _⟩ := ofString_of_lex s neg 0 e h
+  rw [h1]
+  exact ofDigits_zero neg ip fp ex h2.symm
+
+example : lexValue "-0.00".toList = some (true, 0, -2) := by decide
+
+/-- nothing outside the grammar is read as a number: blanks, a second point, a bare sign or
+point, an exponent without digits, digit separators, `Infinity`, `NaN` all give an error -/
+theorem from_str_rejects (s : List Char) (h : lexValue s = none) : fromStr s = none :=
+  ofString_not_lex s h
+
+example : lexValue " 1".toList = none ∧ lexValue "1 ".toList = none ∧ lexValue "1.2.3".toList = none ∧
+    lexValue ".".toList = none ∧ lexValue "1E".toList = none ∧ lexValue "1,5".toList = none ∧
+    lexValue "Infinity".toList = none := by decide
+
+/-- a FEEL literal `before.after` of **any** length evaluates to the correctly rounded value of
+its digits (`literal_exact` is the case of at most 34 significant digits) -/
+theorem literal_rounds (before after : List Char) (hb : AllDigits before) (hbne : before ≠ [])
+    (ha : AllDigits after) (hN : readNat (before ++ after) ≠ 0) :
+    ∃ r, ofLiteral before after = r.toOption ∧
+      RoundsHalfEven false (readNat (before ++ after)) 1 (-(after.length : Int)) r := by
+  obtain ⟨c, l, rfl⟩ := exists_cons_of_ne_nil before hbne
+  refine ⟨ofString ((c :: l) ++ ['.'] ++ after), rfl, ?_⟩
+  have e1 : (c :: l) ++ ['.'] ++ after = signOf false ++ ((c :: l) ++ '.' :: after) := by simp [signOf]
+  have hl := lexValue_point false c l after hb ha
+  rw [e1]
+  exact from_str_rounds _ false _ _ hl hN
+
+example : ofLiteral "1".toList "00000000000000000000000000000000050".toList
+    = some ⟨false, 1000000000000000000000000000000000, -33⟩ := by decide +kernel
+
+/-- the two directions meet: the text `Display` prints for a finite number is read by the
+specification reader of the input direction as exactly that number's value — sign, the integer
+`coeff·10^exp` resp. `coeff`, and `-exp` fraction digits -/
+theorem plain_lex_value (d : D128) (hwf : WF d) :
+    ∃ t, plain d = some t ∧
+      lexValue t = some (d.neg, d.coeff * 10 ^ d.exp.toNat, -((-d.exp).toNat : Int)) :=
+  ⟨plainSpec d, plain_eq d hwf, lexValue_of_plainValue _ _ _ _ (plainSpec_value d)⟩
+
+example : WF ⟨true, 15, -8⟩ := by decide
 
 end Dmn.Props.C07
